@@ -9,11 +9,23 @@ import subprocess
 from . import REPO, VERIF
 
 NATIVE = {
+    "C04": [
+        ("C04:Bag.json", "histogrammar.primitives.bag.Bag.toJsonFragment", "bounded:json-roundtrip",
+         "Bag of range N / S / N2 filled with up to 2 data from the critical alphabet (incl. nan, +-inf): strict dumps, reload re-serialises identically, reloaded usable under zero/copy/+/*"),
+    ],
+    "C15": [
+        ("C15:version", "histogrammar.version.compatible", "bounded:version-grid",
+         "version strings <a>.<b>[.<c>] for a, b up to two above the library's, and malformed strings; used through its assumed contract in Factory.fromJson"),
+        ("C15:Bag.json", "histogrammar.primitives.bag.Bag.fromJsonFragment", "bounded:single-point-mutations",
+         "all single-point structural mutations (delete key, add key, retype value, rename type, negative entries, version) of 6 Bag documents"),
+    ],
     "C09": [
         ("C09:Bag.__eq__", "histogrammar.primitives.bag.Bag.__eq__", "bounded:eq-sound-complete-total",
          "Bag of range N filled with all sequences of length <= 2 over {0.5, 2.0, inf, -inf, nan, -3.0} plus structural variants; == and != against copies, one-datum differences and non-Bag operands"),
     ],
     "C06": [
+        ("C06:Bag.json", "histogrammar.primitives.bag.Bag.toJsonFragment", "bounded:frame",
+         "toJson on Bags of range N / S / N2 leaves the Bag unchanged"),
         ("C06:Bag.__eq__", "histogrammar.primitives.bag.Bag.__eq__", "bounded:frame",
          "== / != on Bags filled with up to 2 data leave both operands' JSON unchanged"),
     ],
